@@ -332,6 +332,12 @@ class Rewriter:
         if part == 'sig' and '&dyn Fn' in text:
             text = text.replace('&dyn Fn', '&impl Fn')
             self.log.append(('R2', fid, '&dyn Fn -> &impl Fn'))
+        if part == 'body' and 'f64::EPSILON' in text:
+            # R16  f64::EPSILON -> f64_epsilon()  (associated constants of primitive types are unsupported)
+            text = text.replace('f64::EPSILON', 'f64_epsilon()')
+            # a local `const X: f64 = f64_epsilon();` becomes a `let` (a call is not a const expression)
+            text = re.sub(r'\bconst(\s+\w+\s*:\s*f64\s*=\s*f64_epsilon\(\)\s*;)', r'let\1', text)
+            self.log.append(('R16', fid, 'f64::EPSILON -> f64_epsilon()'))
         if part == 'body':
             # R5  X as f64  -> usize_to_f64(X)
             def r5(mm):
